@@ -256,6 +256,7 @@ func (h *c14Handle) runTarget(c C14Case, view MSet, snaps []verSnap) c14Result {
 		res.after = a
 	case "write", "txn":
 		after := view.Clone()
+		tainted := ""
 		explicit := c.Target == "txn"
 		if explicit {
 			if res.err = h.conn.Exec("begin"); res.err != nil {
@@ -288,6 +289,12 @@ func (h *c14Handle) runTarget(c C14Case, view MSet, snaps []verSnap) c14Result {
 			} else if cls == "error" {
 				res.err = err
 				break
+			} else if cls != outcome && res.skipped > 0 {
+				// a later statement sees an effect of a statement that reported an error (there
+				// is no statement-level undo): allowed only in a transaction that can no longer
+				// be committed
+				tainted = fmt.Sprintf("%s: outcome %s, the model (in which the failed statement had no effect) expects %s", s, cls, outcome)
+				continue
 			} else if cls != outcome {
 				res.err = fmt.Errorf("HARNESS-MISMATCH %s: outcome %s, model expects %s", s, cls, outcome)
 				break
@@ -301,6 +308,9 @@ func (h *c14Handle) runTarget(c C14Case, view MSet, snaps []verSnap) c14Result {
 				_ = h.conn.Exec("rollback")
 			} else {
 				res.err = h.conn.Exec("commit")
+				if res.err == nil && tainted != "" {
+					res.err = fmt.Errorf("HARNESS-MISMATCH the transaction committed although a statement had seen the effect of a statement that reported an error (%s)", tainted)
+				}
 			}
 		}
 		if res.err == nil {
@@ -622,4 +632,49 @@ func init() { register("TestC11_UnderFaults", runC14) }
 func TestC11_UnderFaults(t *testing.T) {
 	st := newStats(t, "C11", "TestC11_UnderFaults", "the fault-enumeration runner of C14 restricted to statements that commit and so retire the versions they merged (autocommit write, BEGIN..COMMIT, s3db_refresh and CREATE on a read-write handle over a frontier of 1-3 unmerged versions): for EVERY request index p of the statement, with a single transport error at p and with every request from p on failing, after the fault has cleared every version name recorded during the prefix history is opened again restricted to that version and must give exactly its recorded rows (no vacuum ran, so nothing may have been reclaimed); non-trivial as for C14")
 	checkRapid(t, st, genC11FaultCase, runC14)
+}
+
+// Continued transactions on their own: the region where a statement fails in the middle of
+// the tree update is narrow (a particular node load of a particular insert), so it gets its
+// own budget instead of a twentieth of TestC14_Faults.
+func genC14ContinuedCase(t *rapid.T) C14Case {
+	c := genC14Case(t)
+	c.Target, c.Continue, c.RO, c.Late = "txn", true, false, nil
+	c.Prefix.EPN = rapid.SampledFrom([]int{2, 2, 3}).Draw(t, "cepn")
+	c.Prefix.NKeys = 16
+	fill := Stmt{Kind: "ins", Cols: []string{"a"}, T: -10}
+	for i, k := range intKeys(16) {
+		if rapid.IntRange(0, 2).Draw(t, "fillkey") != 0 {
+			fill.Keys = append(fill.Keys, k)
+			fill.Vals = append(fill.Vals, []Val{vInt(int64(i % 3))})
+		}
+	}
+	if len(fill.Keys) == 0 {
+		fill.Keys, fill.Vals = []Val{vInt(1)}, [][]Val{{vInt(1)}}
+	}
+	c.Prefix.Steps = []MWStep{{Op: "stmt", W: 0, Stmts: []Stmt{fill}}}
+	// a few more single-row commits so that the tree is not the one a bulk insert builds
+	cfg := stmtGenCfg{keys: intKeys(16), cols: wideCols, vals: rapid.SampledFrom([]Val{vNull(), vInt(1), vInt(2)}), multiRow: false, wIns: 6, wUpd: 1, wDel: 3}
+	for i, m := 0, rapid.IntRange(0, 4).Draw(t, "nmore"); i < m; i++ {
+		s := genStmt(t, cfg, "more")
+		s.T = int64(100 + i)
+		c.Prefix.Steps = append(c.Prefix.Steps, MWStep{Op: "stmt", W: 0, Stmts: []Stmt{s}})
+	}
+	c.Prefix.NWriters = 1
+	c.Stmts = nil
+	for i, n := 0, rapid.IntRange(2, 5).Draw(t, "nstmts"); i < n; i++ {
+		s := genStmt(t, cfg, "t")
+		s.T = int64(60*256 + i)
+		c.Stmts = append(c.Stmts, s)
+	}
+	c.NoRefresh = rapid.Bool().Draw(t, "norefresh")
+	c.Reread = false
+	return c
+}
+
+func init() { register("TestC14_ContinuedTxn", runC14) }
+
+func TestC14_ContinuedTxn(t *testing.T) {
+	st := newStats(t, "C14", "TestC14_ContinuedTxn", "the runner of TestC14_Faults on one shape: a multi-node table (entries_per_node 2-3, up to 16 keys, a bulk insert plus 0-4 single-row commits), then BEGIN, 2-5 single-row INSERT/DELETE/UPDATE statements, COMMIT on a fresh handle, re-run for EVERY request index p with a single transport error at p and with every request from p on failing; a statement that fails with a storage error does not end the transaction: the remaining statements run and the transaction is committed; afterwards the table must hold exactly the contents before the transaction or the contents with every statement that reported success applied and every statement that reported an error not applied; then the connection goes on (with or without refresh) and a follow-up write must be visible to a fresh open; non-trivial as for TestC14_Faults")
+	checkRapid(t, st, genC14ContinuedCase, runC14)
 }
